@@ -545,14 +545,17 @@ fn write_olde_ecl(
         return Err(emitter.emit(error!("too many timelines! (max allowed in this game is {max_timelines})")));
     }
 
+    let num_subs = u16::try_from(ecl.subs.len()).map_err(|_| {
+        emitter.emit(error!("too many subs! (max allowed is {})", u16::MAX))
+    })?;
     match format.timeline_array_kind() {
         | TimelineArrayKind::Pofv { .. }
         | TimelineArrayKind::Pcb { .. } => {
-            w.write_u16(ecl.subs.len() as _)?;
+            w.write_u16(num_subs)?;
             w.write_u16(ecl.timelines.len() as _)?;
         },
         | TimelineArrayKind::Eosd { .. } => {
-            w.write_u16(ecl.subs.len() as _)?;
+            w.write_u16(num_subs)?;
             w.write_u16(0)?;
         },
     };
@@ -1196,7 +1199,7 @@ impl InstrFormat for TimelineFormat06 {
         }
 
         let opcode = f.read_u16()?;
-        let size = f.read_i16()? as usize;
+        let size = f.read_u16()? as usize;
 
         let args_size = size.checked_sub(self.instr_header_size()).ok_or_else(|| {
             emitter.as_sized().emit(error!("bad instruction size ({} < {})", size, self.instr_header_size()))
